@@ -21,8 +21,8 @@ REQUIRED_COUNTERS = ["programs", "round_trips", "cross_pairs", "gaussian_beams",
 
 
 def plan(tier, seed):
-    return [{"shard": i, "programs": 4 if tier == "quick" else 190, "beams": 3 if tier == "quick" else 95,
-             "airy": 1 if (tier == "quick" and i < 6) else (0 if tier == "quick" else 4)} for i in range(16)]
+    return [{"shard": i, "programs": 4 if tier == "quick" else 2500, "beams": 3 if tier == "quick" else 900,
+             "airy": 1 if (tier == "quick" and i < 6) else (0 if tier == "quick" else 12)} for i in range(16)]
 
 
 def beam(N, d, w0, x0, y0, lam, z, kx=0.0, ky=0.0):
